@@ -858,7 +858,7 @@ e_instance!(c06_entry_k4_rep_cached1, 4, REP_IN_LIST, 1, false);
 e_instance!(c06_entry_k4_rep_other, 4, REP_NOT_IN_LIST, 2, false);
 e_instance!(c06_entry_k5, 5, REP_NONE, ENTRY_NONE, false);
 e_instance!(c06_entry_k1_rep0, 1, REP_MOVE_0, ENTRY_NONE, false);
-e_instance!(c06_entry_witness, 4, REP_NONE, 3, true);
+e_instance!(c06_entry_witness, 1, REP_NONE, ENTRY_NONE, true);
 
 /// C08, cheap: the root hands its killer table to the first child; the stub reports "stopped" at
 /// once, so the root returns before it touches the table -- only the length of the killer table
